@@ -166,8 +166,13 @@ def gen_sequence(rng, L, d=None):
             return w
         return v
 
+    phist = [] if d == 'anderson' else None
+
     def init_line():
         pp = pf(x)
+        if phist is not None:
+            del phist[:]
+            phist.append(list(pp))
         return f'init {f2h(gam)} {vec2p(x)} {vec2p([a + b for a, b in zip(x, pp)])} {vec2p(pp)} {vec2p(gf(x))}'
     if rng.random() < 0.06 and d != 'slbfgs':
         ops.append(app_line(rng, n, gam, x, pf, gf, exact))        # apply before initialize
@@ -197,7 +202,7 @@ def gen_sequence(rng, L, d=None):
                        f'{vec2p(weird(pn))} {vec2p(weird(gk))} {vec2p(weird(gn))}')
             x = xn
         elif k < 0.72:
-            ops.append(app_line(rng, n, gam, x, pf, gf, exact, weird))
+            ops.append(app_line(rng, n, gam, x, pf, gf, exact, weird, hist=phist))
         elif k < 0.84:
             r = rng.random()
             if r < 0.7:
@@ -217,16 +222,30 @@ def gen_sequence(rng, L, d=None):
             ops.append('hasinit')
         else:
             ops.append(init_line())
-    ops.append(app_line(rng, n, gam, x, pf, gf, exact))
+    ops.append(app_line(rng, n, gam, x, pf, gf, exact, hist=phist))
     return ops
 
 
-def app_line(rng, n, gam, x, pf, gf, exact, weird=lambda v: v):
+def app_line(rng, n, gam, x, pf, gf, exact, weird=lambda v: v, hist=None):
+    """`hist` (Anderson sequences): the residuals p handed over so far, newest last; used to produce the
+    points the repaired LimitedMemoryQR::add_column must survive: pₖ = p_last (zero residual difference)
+    and pₖ − p_last in the span of the stored differences (dependent column)."""
     r = rng.random()
     if r < 0.75:
         pp, g = pf(x), gf(x)
     else:
         pp, g = vec(rng, n, exact), vec(rng, n, exact)
+    if hist is not None:
+        k = rng.random()
+        if hist and k < 0.15:
+            pp = list(hist[-1])                                           # r_k == r_last
+        elif len(hist) >= 2 and k < 0.27:
+            c = rng.choice([1.0, 2.0, -1.0, 0.5, -0.5])                   # multiple of the newest difference
+            pp = [a + c * (a - b) for a, b in zip(hist[-1], hist[-2])]
+        elif len(hist) >= 3 and k < 0.33:
+            c1_, c2_ = rng.choice([1.0, -1.0, 0.5]), rng.choice([1.0, 2.0, -0.5])   # combination of two
+            pp = [a + c1_ * (a - b) + c2_ * (b - c) for a, b, c in zip(hist[-1], hist[-2], hist[-3])]
+        hist.append(list(pp))
     g_ = gam if rng.random() < 0.9 else rng.choice([0.0, -1.0, 2 * gam, NAN])
     xh = [a + b for a, b in zip(x, pp)]
     q0 = vec(rng, n, True)
@@ -456,6 +475,27 @@ def dense_apply(hist, g0, q, n):
     return r, sc
 
 
+def in_span(cols, v):
+    """Is v a linear combination of cols?  (exact rationals)"""
+    if not cols:
+        return all(a == 0 for a in v)
+    n = len(v)
+    M = [[Fr(c[i]) for c in cols] + [Fr(v[i])] for i in range(n)]
+    k = len(cols)
+    r = 0
+    for c in range(k):
+        piv = next((i for i in range(r, n) if M[i][c] != 0), None)
+        if piv is None:
+            continue
+        M[r], M[piv] = M[piv], M[r]
+        for i in range(n):
+            if i != r and M[i][c] != 0:
+                f = M[i][c] / M[r][c]
+                M[i] = [a - f * b for a, b in zip(M[i], M[r])]
+        r += 1
+    return all(M[i][k] == 0 for i in range(r, n))
+
+
 def close(got, exp, sc):
     for i, (a, e) in enumerate(zip(got, exp)):
         if not math.isfinite(a) or abs(Fr(a) - e) > TOL * max(sc, Fr(1, 2 ** 200)):
@@ -528,6 +568,8 @@ def _monitor(op, out, st):
             if rescale:
                 st['aa']['dr'] = [[v * f for v in c] for c in st['aa']['dr']]
                 st['aa']['scaled'] = True
+                if not (math.isfinite(f) and f != 0):
+                    st['aa']['poison'] = True
             else:
                 st['aa'].update(g=st['aa']['g'][-1:], dr=[])
             bump('anderson_chg_rescale' if rescale else 'anderson_chg_flush')
@@ -743,13 +785,29 @@ def _monitor(op, out, st):
             newcol = [a - b for a, b in zip(p, A['rl'])]
             if len(A['dr']) == mAA:
                 A['dr'] = A['dr'][1:]; A['g'] = A['g'][1:]
+            window = list(A['dr'])
             A['dr'].append(newcol); A['g'].append(xh); A['rl'] = p
+            if not (fin(p) and fin(xh) and fin(x)):
+                A['poison'] = True
             m = check_state(st, dt)
             if m:
                 return m
             dd = parse_aa_dump(S.T(dump.split()))
             K = len(A['dr'])
             gam_ls = dd['gam']
+            # the formerly excluded points: zero / linearly dependent residual difference (finite, moderate data)
+            tame = (not A.get('poison') and all(fin(c) and max(map(abs, c), default=0) < 1e100
+                                               for c in A['dr'] + A['g']) and fin(x))
+            if tame:
+                zero = all(v == 0 for v in newcol)
+                dep = zero or in_span(window, newcol)
+                if dep:
+                    bump('anderson_zero_difference' if zero else 'anderson_dependent_difference')
+                    if not (fin(q) and fin(gam_ls) and fin(dd['R']) and fin(dd['Q'])):
+                        return (f'AndersonDirection::apply with a {"repeated residual (pₖ = p_last)" if zero else "linearly dependent residual difference"} '
+                                f'returned non-finite data: q = {q}, γ_LS = {gam_ls}')
+                    if zero and gam_ls[K - 1] != 0.0:
+                        return f'zero residual difference (zero pivot) but γ_LS[{K - 1}] = {gam_ls[K - 1]!r} ≠ 0'
             if not (fin(gam_ls) and fin(q) and fin(x) and all(fin(c) for c in A['g'])):
                 return None
             gq = [Fr(v) for v in gam_ls]
